@@ -40,3 +40,83 @@ Proof.
   assert (2 * (P * P) * (tsh * x) < 2 * (P * P) * ((dsh + 1) * T)) as H4 by nia.
   apply (Z.mul_lt_mono_pos_l (2 * (P * P))); [nia |]. replace (T * Z.succ dsh) with ((dsh + 1) * T) by lia. exact H4.
 Qed.
+
+(* ---------- exact characterisation of the share check ---------- *)
+(* the largest amount whose converted shares do not exceed the staker's shares *)
+Definition xmax (dsh tsh T : Z) : Z := ((dsh + 1) * T - 1) / tsh.
+
+Lemma shares_le_iff dsh tsh T x : 0 < T -> 0 < tsh -> 0 <= dsh -> 0 < x ->
+  (forall sh0, shares_from_tokens tsh x T = Some sh0 -> (sh0 <= dsh <-> x <= xmax dsh tsh T)).
+Proof.
+  intros HT Hts Hd Hx sh0 H. unfold shares_from_tokens in H. destruct (T =? 0) eqn:ET; [apply Z.eqb_eq in ET; lia|].
+  inversion H; subst sh0; clear H. unfold dec_quo_int, dec_mul_int, xmax. rewrite quot_nonneg_div by nia.
+  split; intro L.
+  - assert (tsh * x < (dsh + 1) * T) as L1.
+    { destruct (Z_lt_le_dec (tsh * x) ((dsh + 1) * T)) as [A|A]; [exact A|].
+      assert (dsh + 1 <= tsh * x / T) by (apply Z.div_le_lower_bound; lia). lia. }
+    apply Z.div_le_lower_bound; lia.
+  - assert (tsh * x <= (dsh + 1) * T - 1) as L1.
+    { pose proof (Z.mul_div_le ((dsh + 1) * T - 1) tsh Hts). nia. }
+    apply Z.lt_succ_r. apply Z.div_lt_upper_bound; lia.
+Qed.
+
+(* the check: [share_check true] is what the code (and the model) does since fix 56b99a6, [share_check false] what it did before *)
+Definition share_check (cl : bool) (dsh tsh T x : Z) : bool :=
+  match shares_from_tokens tsh x T with
+  | None => false
+  | Some sh0 =>
+      negb ((sh0 >? dsh) &&
+            negb (cl && match tokens_from_shares dsh tsh T with Some pos => x <=? pos | None => false end))
+  end.
+
+(* unrepaired tree: accepted iff x <= xmax; repaired tree: iff x <= max xmax position *)
+Lemma share_check_exact dsh tsh T x pos : 0 < T -> 0 < tsh -> 0 <= dsh -> 0 < x -> tokens_from_shares dsh tsh T = Some pos ->
+  (share_check false dsh tsh T x = true <-> x <= xmax dsh tsh T) /\
+  (share_check true dsh tsh T x = true <-> x <= Z.max (xmax dsh tsh T) pos).
+Proof.
+  intros HT Hts Hd Hx Hp. unfold share_check. rewrite Hp.
+  destruct (shares_from_tokens tsh x T) as [sh0|] eqn:Es.
+  2:{ unfold shares_from_tokens in Es. destruct (T =? 0) eqn:ET; [apply Z.eqb_eq in ET; lia|discriminate]. }
+  pose proof (shares_le_iff dsh tsh T x HT Hts Hd Hx sh0 Es) as Iff.
+  destruct (sh0 >? dsh) eqn:Eo; rewrite Z.gtb_ltb in Eo.
+  - apply Z.ltb_lt in Eo. simpl. split.
+    + split; [discriminate|]. intro L. apply Iff in L. lia.
+    + destruct (x <=? pos) eqn:Ep; simpl.
+      * apply Z.leb_le in Ep. split; [lia|reflexivity].
+      * apply Z.leb_gt in Ep. split; [discriminate|]. intro L. assert (x <= xmax dsh tsh T) as L2 by lia. apply Iff in L2. lia.
+  - apply Z.ltb_ge in Eo. simpl. apply Iff in Eo. split; split; intros; try reflexivity; lia.
+Qed.
+
+(* everything within the reported position passes the check: always on the repaired tree; on the unrepaired tree
+   exactly when position <= xmax *)
+Lemma within_position dsh tsh T pos : 0 < T -> 0 < tsh -> 0 <= dsh -> tokens_from_shares dsh tsh T = Some pos ->
+  (forall x, 0 < x -> x <= pos -> share_check true dsh tsh T x = true) /\
+  ((forall x, 0 < x -> x <= pos -> share_check false dsh tsh T x = true) <-> (pos <= 0 \/ pos <= xmax dsh tsh T)).
+Proof.
+  intros HT Hts Hd Hp. split.
+  - intros x Hx L. apply (share_check_exact dsh tsh T x pos HT Hts Hd Hx Hp). lia.
+  - split.
+    + intro A. destruct (Z_le_gt_dec pos 0) as [Z0|Pp]; [left; exact Z0|right].
+      apply (share_check_exact dsh tsh T pos pos HT Hts Hd ltac:(lia) Hp). apply A; lia.
+    + intros [Z0|L] x Hx Lx; [lia|]. apply (share_check_exact dsh tsh T x pos HT Hts Hd Hx Hp). lia.
+Qed.
+
+(* the model's undelegate rejects whenever the check fails (so the characterisation is about the real decision) *)
+Lemma undelegate_needs_check s st a op x n tx d o :
+  sget (dg s) (dg_key st a op) = Some d -> sget (oa s) (oa_key op a) = Some o ->
+  share_check true (dg_sh d) (oa_tsh o) (oa_amt o) x = false -> undelegate s st a op x n tx = None.
+Proof.
+  intros Gd Go Ck. unfold undelegate. destruct (x <=? 0); [reflexivity|]. destruct (negb (mem op (operators s))); [reflexivity|].
+  rewrite Gd, Go. unfold share_check in Ck.
+  destruct (shares_from_tokens (oa_tsh o) x (oa_amt o)) as [sh0|]; [|reflexivity].
+  apply negb_false_iff in Ck. simpl in Ck. rewrite Ck. reflexivity.
+Qed.
+
+(* the pool of the regression scenario (rows of the state reached by C03.Proofs.accept_ops): before fix 56b99a6 the check
+   rejected the reported position of 56 and accepted 55 *)
+Lemma prerepair_witness :
+  let dsh := 470042106230190932613 in let tsh := 548665042106230190932613 in let T := 65367 in
+  tokens_from_shares dsh tsh T = Some 56 /\ xmax dsh tsh T = 55 /\
+  share_check false dsh tsh T 56 = false /\ share_check false dsh tsh T 55 = true /\
+  share_check true dsh tsh T 56 = true /\ share_check true dsh tsh T 57 = false.
+Proof. vm_compute. repeat split; reflexivity. Qed.
